@@ -11,11 +11,17 @@ use crate::wire::{self, Wire};
 pub mod c03;
 pub mod c04;
 pub mod c05;
+pub mod c06;
+pub mod c09;
+pub mod c10;
+pub mod c11;
 pub mod c12;
+pub mod c16;
+pub mod c17;
 pub mod c18;
 
 pub fn all() -> Vec<Box<dyn Check>> {
-    vec![Box::new(c03::C03), Box::new(c04::C04), Box::new(c05::C05), Box::new(c12::C12), Box::new(c18::C18)]
+    vec![Box::new(c03::C03), Box::new(c04::C04), Box::new(c05::C05), Box::new(c06::C06), Box::new(c09::C09), Box::new(c10::C10), Box::new(c11::C11), Box::new(c12::C12), Box::new(c16::C16), Box::new(c17::C17), Box::new(c18::C18)]
 }
 
 pub fn by_id(id: &str) -> Option<Box<dyn Check>> {
